@@ -229,7 +229,11 @@ def rule_pos_conv(prog):
     def _conv_fn(x):
         return x["d"] in (cv["as_position"]["d"], cv["get_insertion_index"]["d"])
 
-    conv_helpers = set(b["p"] for b in bodies if not _conv_fn(b) and hir.only_called_from(prog, b["p"], _conv_fn))
+    def _conv_layer(x):
+        # (as_pos_range may share a private helper with as_position; it is no place for Position literals of its own)
+        return _conv_fn(x) or x["d"] == cv["as_pos_range"]["d"]
+
+    conv_helpers = set(b["p"] for b in bodies if not _conv_layer(b) and hir.only_called_from(prog, b["p"], _conv_layer))
     for b in bodies:
         f = c.file_of(b["sp"])
         if b["p"] in conv_helpers:
@@ -273,6 +277,17 @@ def rule_pos_conv(prog):
                 v = from_conv(fld["base"], b, _defs(b), _params(b))
                 ok = v is True or (isinstance(v, tuple) and b["d"].startswith("features::semantic_tokens::")
                                    and c.tstr(b["params"][v[1]]["bt"]).replace("&mut ", "").replace("&", "").strip() == "lsp_types::Position")
+                if not ok and isinstance(v, tuple) and b["d"] != cv["get_insertion_index"]["d"]:
+                    # a position handed in: decided by what the callers hand in (a conversion result is no client position)
+                    if not site_index:
+                        for cb in bodies:
+                            for call in hir.nodes(cb["body"], "Call"):
+                                site_index.setdefault(hir.callee_display(call) or "", []).append((cb, call))
+                    sites_ = [(cb, call) for cb, call in site_index.get(b["d"], []) if v[1] < len(call["args"])]
+                    if not sites_ and "impl_trait" in b and b.get("impl_trait") in ("core::convert::From", "core::convert::Into"):
+                        ok = None     # reached through `.into()`: the call sites are not resolved here
+                    elif sites_ and all(from_conv(call["args"][v[1]], cb, _defs(cb), _params(cb)) is True for cb, call in sites_):
+                        ok = True
                 n += 1
                 out.add(b["d"], "Position.%s of a client position is read only by get_insertion_index" % fld["name"], ok,
                         c.loc(fld["sp"]),
